@@ -91,12 +91,33 @@ func runC10(c *an.Ctx) {
 	c.Note("W = %v", keysW)
 
 	// ---- unconditional resets
-	topStores := func(f *an.Fn, before token.Pos) (map[string]token.Pos, bool) {
-		out := map[string]token.Pos{}
-		freshScope := false
+	// topStores: the fields stored unconditionally (by top-level statements, also those of a new helper
+	// called by a top-level statement) before the first call for which stop holds
+	var topStoresRec func(f *an.Fn, stop func(*ast.CallExpr) bool, out map[string]token.Pos, fresh *bool, depth int) bool
+	topStoresRec = func(f *an.Fn, stop func(*ast.CallExpr) bool, out map[string]token.Pos, fresh *bool, depth int) (stopped bool) {
 		for _, st := range f.Body.List {
-			if before.IsValid() && st.Pos() >= before {
-				break
+			if es, ok := st.(*ast.ExprStmt); ok && depth < 4 {
+				if call, ok := an.Unparen(es.X).(*ast.CallExpr); ok {
+					if h := p.NewHelperCallee(f, call); h != nil && h.Body != nil {
+						if topStoresRec(h, stop, out, fresh, depth+1) {
+							return true
+						}
+						continue
+					}
+				}
+			}
+			hit := false
+			ast.Inspect(st, func(n ast.Node) bool {
+				if _, isLit := n.(*ast.FuncLit); isLit {
+					return false
+				}
+				if call, ok := n.(*ast.CallExpr); ok && stop(call) {
+					hit = true
+				}
+				return !hit
+			})
+			if hit {
+				return true
 			}
 			an.Assigns(st, func(lhs, rhs ast.Expr, _ token.Token) {
 				fv := an.FieldOf(info, lhs)
@@ -108,13 +129,19 @@ func runC10(c *an.Ctx) {
 				if k == "Runtime.scope" && rhs != nil {
 					if u, ok := an.Unparen(rhs).(*ast.UnaryExpr); ok && u.Op == token.AND {
 						if cl, ok := an.Unparen(u.X).(*ast.CompositeLit); ok && an.TypeName(info.Types[cl].Type) == "jet.scope" {
-							freshScope = true
+							*fresh = true
 						}
 					}
 				}
 			})
 		}
-		return out, freshScope
+		return false
+	}
+	topStores := func(f *an.Fn, stop func(*ast.CallExpr) bool) (map[string]token.Pos, bool) {
+		out := map[string]token.Pos{}
+		fresh := false
+		topStoresRec(f, stop, out, &fresh, 0)
+		return out, fresh
 	}
 	var firstExec, putPos, getPos token.Pos
 	an.InspectOwn(exec, func(n ast.Node) bool {
@@ -138,8 +165,8 @@ func runC10(c *an.Ctx) {
 		c.Anchor("C10.reset", "pool Get / first executeList in Execute, pool Put in recover")
 		return
 	}
-	inExec, freshE := topStores(exec, firstExec)
-	inRec, freshR := topStores(rec, putPos)
+	inExec, freshE := topStores(exec, func(call *ast.CallExpr) bool { return an.IsCallTo(info, call, execList) })
+	inRec, freshR := topStores(rec, func(call *ast.CallExpr) bool { return isPoolCall(info, call, "Put") })
 	for _, k := range keysW {
 		key := "field:" + k
 		where := W[k][0]
@@ -157,32 +184,46 @@ func runC10(c *an.Ctx) {
 	}
 
 	// ---- C10.putlast
-	recvObj := types.Object(rec.Sig.Recv())
-	var afterUse token.Pos
-	an.InspectOwn(rec, func(n ast.Node) bool {
-		if id, ok := n.(*ast.Ident); ok && id.Pos() > putPos && an.ObjOf(info, id) == recvObj {
-			// the argument of Put itself
-			if !afterUse.IsValid() {
-				afterUse = id.Pos()
+	// decided on the paths of recover (helpers spliced in): once Put was called, the runtime — under any of
+	// the names it has in recover and the helpers it was split into — is not loaded again
+	pooled := map[types.Object]bool{types.Object(rec.Sig.Recv()): true}
+	for changed := true; changed; {
+		changed = false
+		for v, bs := range p.HelperBinds(rec) {
+			if pooled[v] {
+				continue
+			}
+			for _, b := range bs {
+				if id, ok := an.Unparen(b.Arg).(*ast.Ident); ok && pooled[an.ObjOf(info, id)] {
+					pooled[v] = true
+					changed = true
+				}
 			}
 		}
-		return true
+	}
+	var afterUse token.Pos
+	var putCall *ast.CallExpr
+	px := p.NewExplorer(rec, an.Hooks{
+		Call: func(x *an.Explorer, call *ast.CallExpr, st *an.State) {
+			if isPoolCall(info, call, "Put") {
+				st.Set("put", "1")
+				putCall = call
+			}
+		},
+		Use: func(x *an.Explorer, e ast.Expr, st *an.State) {
+			if st.Get("put") == "" || afterUse.IsValid() {
+				return
+			}
+			if putCall != nil && putCall.Pos() <= e.Pos() && e.End() <= putCall.End() {
+				return // the argument of Put itself
+			}
+			if id, ok := an.Unparen(e).(*ast.Ident); ok && pooled[an.ObjOf(info, id)] {
+				afterUse = id.Pos()
+			}
+		},
 	})
-	// the Put call's own argument lies after call.Pos(); find the end of the Put call
-	var putEnd token.Pos
-	an.InspectOwn(rec, func(n ast.Node) bool {
-		if call, ok := n.(*ast.CallExpr); ok && call.Pos() == putPos {
-			putEnd = call.End()
-		}
-		return true
-	})
-	afterUse = token.NoPos
-	an.InspectOwn(rec, func(n ast.Node) bool {
-		if id, ok := n.(*ast.Ident); ok && id.Pos() > putEnd && an.ObjOf(info, id) == recvObj && !afterUse.IsValid() {
-			afterUse = id.Pos()
-		}
-		return true
-	})
+	px.Run(nil)
+	c.States += px.Visited
 	c.Check(!afterUse.IsValid(), "C10.putlast", "(*Runtime).recover/no-use-after-Put", putPos, "the runtime is not touched after it was returned to the pool",
 		"Runtime.recover uses the runtime after pool Put: another goroutine may already have taken it from the pool")
 	// Execute defers recover before the first write to the runtime
